@@ -341,8 +341,14 @@ def d3_filters(ctx):
         sig = []
         for x in (prods[0].left, prods[0].right):
             t = kwarg(x, "typ")
-            sig.append((src(x.args[1]), t.value if isinstance(t, ast.Constant) else None))
-        okb = sorted(sig) == sorted([("b[0:2]", "hp"), ("b[2:4]", "lp")])
+            a1 = x.args[1]
+            key_ = src(a1)
+            if isinstance(a1, ast.Subscript) and isinstance(a1.slice, ast.Slice) and a1.slice.step is None and loc_name(a1.value) == "b":
+                lo_ = const_value(a1.slice.lower)[1] if a1.slice.lower is not None else 0
+                hi_ = const_value(a1.slice.upper)[1] if a1.slice.upper is not None else None
+                key_ = f"b[{lo_}:{hi_}]"          # b[:2] is b[0:2]
+            sig.append((key_, t.value if isinstance(t, ast.Constant) else None))
+        okb = sorted(sig) == sorted([("b[0:2]", "hp"), ("b[2:4]", "lp")]) or sorted(sig) == sorted([("b[0:2]", "hp"), ("b[2:None]", "lp")])
     if not prods:
         okb, shown = _bp_by_terms(repo, ff)
         ctx.check(okb, ff, ff.node, shown, "band-pass = high-pass on b[0:2] times low-pass on b[2:4]", f"band-pass evaluates to `{shown}`: not hp(b[0:2]) * lp(b[2:4])", key="bp", name_free=True)
